@@ -4,6 +4,7 @@ mod sym;
 mod entry;
 mod entry2;
 mod probe;
+mod shim;
 use std::collections::BTreeMap;
 use std::panic::{catch_unwind, AssertUnwindSafe};
 
@@ -323,6 +324,7 @@ fn main() {
             }
             "bilinear" => { AXIS_OFFSET.with(|o| o.set(0.0)); AXIS_SCALE.with(|o| o.set(1.0)); AXIS_GAPSET.with(|g| g.borrow_mut().clear()); AXIS_REVERSED.with(|r| r.set(false)); bil_run(line.trim(), &args) }
             "probe" => probe::probe(arg(&args, "unit", "")),
+            "shim" => shim::run(line.trim()),
             other => { AXIS_OFFSET.with(|o| o.set(0.0)); AXIS_SCALE.with(|o| o.set(1.0)); AXIS_GAPSET.with(|g| g.borrow_mut().clear()); AXIS_REVERSED.with(|r| r.set(false)); entry::dispatch(other, &args, line.trim()) }
         }
         }));
